@@ -1,0 +1,39 @@
+//go:build verif
+
+package redis
+
+import (
+	"context"
+	"encoding/json"
+	"errors"
+	"testing"
+
+	"github.com/gotid/god/internal/verifdrv"
+	red "github.com/go-redis/redis/v8"
+)
+
+// TestVerifDriverC01: {"arg": e} -> acceptable(err) with e: 0 nil, 3 context.Canceled, 4 redis.Nil,
+// otherwise another error.
+func TestVerifDriverC01(t *testing.T) {
+	other := errors.New("verif other")
+	verifdrv.Run(t, func(raw json.RawMessage) any {
+		var c struct {
+			Arg int64 `json:"arg"`
+		}
+		if err := json.Unmarshal(raw, &c); err != nil {
+			return map[string]any{"error": err.Error()}
+		}
+		var err error
+		switch c.Arg {
+		case 0:
+			err = nil
+		case 3:
+			err = context.Canceled
+		case 4:
+			err = red.Nil
+		default:
+			err = other
+		}
+		return map[string]any{"ok": acceptable(err)}
+	})
+}
